@@ -49,7 +49,7 @@ impl Prop for C19 {
         "fault_enumeration"
     }
     fn rule(&self) -> String {
-        "cases = a generated conversation (C03-style: writer programs with explicit finishes and drops, prepared statements, QUIT- or EOF-terminated, generated read/write chunking) run fault-free to obtain its operation trace (N transport operations, B inbound bytes), then re-run with EVERY fault point: end-of-stream after k bytes for k = 0..B; a one-off error at operation k and a persistent error from operation k (each with io::ErrorKind ConnectionReset, UnexpectedEof and one of Other / BrokenPipe / TimedOut), write() -> Ok(0) at operation k for k = 0..N-1, and a read interrupted with ErrorKind::Interrupted at every read operation (which the library may either report or retry transparently, but the callback log must stay a prefix of the fault-free log); plus a tagged shim error at every callback index; enumerated conversations whose response contains a packet of 2^24-1 bytes or more (written explicitly and from a destructor), and a multi-packet *request* cut at, around and inside every fragment boundary; one generated conversation in twelve is instead run over TLS (rustls client in the transport) and ended at TLS-level points: a clean close (close_notify + end of stream) after the first m messages for every m (m = 0: TLS session established but no handshake response => Err and no callback; m >= 1 => Ok), and an abrupt end of stream at 10 sampled positions before the encrypted handshake response is complete (=> Err, no callback), and four malformed encrypted handshake responses (truncated; unterminated long UTF-8 user name => Err, no callback, no panic). Oracle: EOF => Ok iff k is a command boundary at or after the end of the handshake exchange (or QUIT was already consumed), else Err; transport fault => Err (never Ok, never a panic), the callback log is a prefix of the fault-free log and no callback starts after the fault; shim error => returned unchanged, no later callback. evaluations counts conversations; faulted_runs counts the enumerated re-runs. Conversations whose fault-free run already takes tens of thousands of transport operations (a 70 KB message through a transport that takes one byte per write) have their fault points sampled with a stride so that a case stays within ~5e7 operations (class fault-points-sampled); all others enumerate every point. Non-trivial = the conversation has >= 3 commands and >= 1 resultset program.".into()
+        "cases = a generated conversation (C03-style: writer programs with explicit finishes and drops, prepared statements, QUIT- or EOF-terminated, generated read/write chunking) run fault-free to obtain its operation trace (N transport operations, B inbound bytes), then re-run with EVERY fault point: end-of-stream after k bytes for k = 0..B; a one-off error at operation k and a persistent error from operation k (each with io::ErrorKind ConnectionReset, UnexpectedEof and one of Other / BrokenPipe / TimedOut), write() -> Ok(0) at operation k for k = 0..N-1, and a read interrupted with ErrorKind::Interrupted at every read operation (which the library may either report or retry transparently, but the callback log must stay a prefix of the fault-free log); plus a tagged shim error at every callback index; enumerated conversations whose response contains a packet of 2^24-1 bytes or more (written explicitly and from a destructor), and a multi-packet *request* cut at, around and inside every fragment boundary; one generated conversation in twelve is instead run over TLS (rustls client in the transport) and ended at TLS-level points: a clean close (close_notify + end of stream) after the first m messages for every m (m = 0: TLS session established but no handshake response => Err and no callback; m >= 1 => Ok), and an abrupt end of stream at 10 sampled positions before the encrypted handshake response is complete (=> Err, no callback), and four malformed encrypted handshake responses (truncated; unterminated long UTF-8 user name => Err, no callback, no panic). Oracle: EOF => Ok iff k is a command boundary at or after the end of the handshake exchange (or QUIT was already consumed), else Err; transport fault => Err (never Ok, never a panic), the callback log is a prefix of the fault-free log and no callback starts after the fault; shim error => returned unchanged, no later callback. evaluations counts conversations; faulted_runs counts the enumerated re-runs. Conversations whose fault-free run already takes tens of thousands of transport operations (a 70 KB message through a transport that takes one byte per write) have their fault points sampled with a stride so that a case stays within ~5e7 operations (class fault-points-sampled); all others enumerate every point. A write or flush that fails once with ErrorKind::Interrupted may be reported or retried (std's write_all retries it): then the conversation must be exactly the fault-free one; it must never make run_on spin. Non-trivial = the conversation has >= 3 commands and >= 1 resultset program.".into()
     }
     fn exhaustive_note(&self, _tier: Tier) -> Option<String> {
         Some("fault points of each generated conversation (all k for EOF / one-off / persistent / zero-write faults, all callback indexes for shim errors)".into())
@@ -89,11 +89,15 @@ impl Prop for C19 {
         use crate::wire::*;
         let mut v = Vec::new();
         let lens: &[usize] = match tier {
-            Tier::Quick => &[MAX_PAYLOAD + 10],
+            // (the message of more than two maximal packets: in the quick tier only as a text row)
+            Tier::Quick => &[MAX_PAYLOAD + 10, 2 * MAX_PAYLOAD + 5],
             Tier::Thorough => &[MAX_PAYLOAD - 6, MAX_PAYLOAD - 3, MAX_PAYLOAD + 10, 2 * MAX_PAYLOAD + 5],
         };
         for (i, &len) in lens.iter().enumerate() {
             for variant in 0..3 {
+                if tier == Tier::Quick && len > 2 * MAX_PAYLOAD && variant != 1 {
+                    continue;
+                }
                 let big = |form| RowProg { cells: vec![Val::plain(Base::BigBytes { seed: i as u32 + 3, len })], form, offers: vec![] };
                 let small = RowProg { cells: vec![Val::plain(Base::Slice(b"x".to_vec()))], form: RowForm::WriteRow, offers: vec![] };
                 let cols = vec![ColSpec::simple("c", T_LONG_BLOB, 0)];
@@ -189,7 +193,7 @@ impl Prop for C19 {
         // transport that accepts one byte per write), the points are sampled so that the work per
         // case stays bounded (~5e7 operations); ordinary cases enumerate all of them
         let budget = 50_000_000usize;
-        let op_stride = case.stride.max(1).max((7 * n_ops.saturating_mul(n_ops) + budget - 1) / budget);
+        let op_stride = case.stride.max(1).max((8 * n_ops.saturating_mul(n_ops) + budget - 1) / budget);
         let eof_stride = case.stride.max(1).max((b.saturating_mul(n_ops) + budget - 1) / budget);
         if op_stride > case.stride.max(1) || eof_stride > case.stride.max(1) {
             ex.class("fault-points-sampled(long-conversation)");
@@ -244,23 +248,29 @@ impl Prop for C19 {
         // 2. transport faults at every operation (kinds 3.. repeat the one-off and persistent faults
         // with other io::ErrorKinds: UnexpectedEof, Other, BrokenPipe, TimedOut)
         let stride = op_stride;
-        for kind in 0..7 {
+        for kind in 0..8 {
             // (when sampling, each kind starts at another offset)
             let mut k = if stride > 1 { (kind * 131) % stride } else { 0 };
             while k < n_ops {
                 let mut cc = c.clone();
+                if kind == 7 && base.ops.get(k).map(|op| op.kind == OpKind::Read).unwrap_or(true) {
+                    // (an interrupted read is 2b's)
+                    k += stride;
+                    continue;
+                }
                 cc.fault = match kind {
-                    0 | 3 | 5 => Fault::ErrOnce(k),
+                    0 | 3 | 5 | 7 => Fault::ErrOnce(k),
                     1 | 4 | 6 => Fault::ErrFrom(k),
                     _ => Fault::WriteZero(k),
                 };
                 cc.fault_kind = match kind {
                     3 | 4 => 1,                       // UnexpectedEof
+                    7 => 6,                           // Interrupted (write / flush)
                     5 => 2 + (k % 3) as u8,           // Other / BrokenPipe / TimedOut
                     6 => 2 + ((k + 1) % 3) as u8,
                     _ => 0,
                 };
-                if kind >= 5 && base.out.len() > (1 << 24) {
+                if (kind == 5 || kind == 6) && base.out.len() > (1 << 24) {
                     // the enumerated 16 MiB conversations are expensive: the first five kinds suffice there
                     k += stride;
                     continue;
@@ -274,11 +284,21 @@ impl Prop for C19 {
                     3 => "one-off error (UnexpectedEof)",
                     4 => "persistent error (UnexpectedEof)",
                     5 => "one-off error (Other/BrokenPipe/TimedOut)",
+                    7 => "write/flush interrupted once (ErrorKind::Interrupted)",
                     _ => "persistent error (Other/BrokenPipe/TimedOut)",
                 };
                 let opk = base.ops.get(k).map(|op| format!("{:?}", op.kind)).unwrap_or_default();
                 match &o.result {
                     RunResult::ErrIo { .. } => {}
+                    RunResult::Ok if kind == 7 => {
+                        // retried (as std's write_all does): then nothing may differ from the fault-free
+                        // run behind the greeting
+                        let skip = crate::wire::split_packets(&base.out).0.first().map(|p| p.start + p.len).unwrap_or(0);
+                        if o.events != base.events || o.out.len() != base.out.len() || o.out.get(skip..) != base.out.get(skip..) {
+                            ex.fail("c19-eintr-write-retry-differs", format!("{} at operation {} ({}) was retried, but the conversation differs from the fault-free run ({} vs {} bytes sent)", what, k, opk, o.out.len(), base.out.len()));
+                            return ex;
+                        }
+                    }
                     RunResult::Panic(p) if is_drop_unwrap(p) => {
                         // documented: "the program may panic if an I/O error occurs when sending the
                         // end-of-records marker" from Drop; reached here even though the shim
@@ -299,7 +319,9 @@ impl Prop for C19 {
                     ex.fail("c19-fault-callbacks", format!("{} at operation {}: callback log is not a prefix of the fault-free log", what, k));
                     return ex;
                 }
-                if let Some(f) = o.fault_fired_at_op {
+                // (an interrupted write that was retried is no failure: the conversation goes on)
+                let retried = kind == 7 && o.result.is_ok();
+                if let Some(f) = o.fault_fired_at_op.filter(|_| !retried) {
                     if let Some(bad) = o.event_ops.iter().position(|&at| at > f) {
                         ex.fail("c19-callback-after-fault", format!("{} at operation {}: callback {} started after the failure", what, f, o.events[bad].brief()));
                         return ex;
